@@ -79,3 +79,30 @@ class parse_schema_parsed:
         and named_schemas == K.MERGED(old.named_schemas, schema["__named_schemas"], len(schema["__named_schemas"])))
     loops = {0: lambda schema, named_schemas: (
         named_schemas == K.MERGED(old.named_schemas, schema["__named_schemas"], _i))}
+
+
+@target(SP, "_default_matches_schema")
+class default_matches_schema:
+    """C11 (defaults): a field default is accepted exactly when it has the JSON kind the field's type expects"""
+    types = dict(default="py", schema="py")
+    returns = "bool"
+    modifies = []
+    requires = lambda default, schema: (
+        # the default is a JSON value (no bytes, tuples, sets)
+        (default is None or isinstance(default, (bool, int, float, str, list, dict)))
+        and not isinstance(schema, list)
+        and implies(isinstance(schema, dict), "type" in schema and not isinstance(schema["type"], (list, dict))))
+    ensures = lambda default, schema, result: result == K.DEFAULT_MATCHES(default, schema)
+
+
+@target(SP, "_maybe_float")
+class maybe_float:
+    """float(value) where float() accepts it, the value itself otherwise"""
+    types = dict(value="py")
+    modifies = []
+    requires = lambda value: value is None or isinstance(value, (bool, int, float, str, list, dict))
+    ensures = lambda value, result: (
+        implies(isinstance(value, (bool, int, float)) or (isinstance(value, str) and S.f_str_parses(value)),
+                isinstance(result, float))
+        and implies(not (isinstance(value, (bool, int, float)) or (isinstance(value, str) and S.f_str_parses(value))),
+                    same(result, value)))
